@@ -5,6 +5,22 @@ import json, os, subprocess
 ROOT = os.path.dirname(os.path.dirname(os.path.abspath(__file__)))
 
 CLAIMED = {
+ "C04": dict(
+   text="Launch/SecState.v: the option record, `child_steps` (the security-relevant syscalls the child issues, with the three differently "
+        "ordered copies of the cap-drop / seccomp / sync code written out), the kernel's credential rules (`apply`: securebits, setuid fix-up, "
+        "capset, no_new_privs, seccomp needing nnp or CAP_SYS_ADMIN, exec without file capabilities) and `state_at_exec`.  Theorems: "
+        "C04_state_at_exec (for EVERY combination of credential / ids / groups / NoSetGroups / gid-map policy / drop-caps / nnp / seccomp / "
+        "ptrace / stop / sync / unshare-cgroup-after-sync / work dir / host / domain the sequence runs through and the target starts with "
+        "empty capability sets and NOROOT locked iff a credential or cap dropping was requested, nnp iff requested or a filter is given, "
+        "exactly one filter iff given, the requested ids and groups, its own session, the requested cwd / names, a new cgroup namespace iff "
+        "requested) and C04_no_step_lost (each step exactly once when requested, never otherwise, exec last).  Tie on every run: the state "
+        "probe launched by pkg/forkexec under ALL 512 combinations of the nine interacting options crossed with random draws of the others; "
+        "the harness is parent and tracer; self-report compared in Coq with state_at_exec and by an independent oracle with the property; "
+        "refused id maps / denied setgroups must fail without running the target.",
+   note="Partial: the kernel's credential rules are the model's assumptions, validated against the probe on every run; namespace creation "
+        "by clone flags is checked by the oracle only; descriptor, mount and rlimit steps are C06 / C05 / C08.  Trusted: Coq kernel + vm_compute.",
+   technique="Coq proof by exhaustive case analysis over all option combinations with symbolic identities + exhaustive differential launches of a state probe",
+   design="§5 C04"),
  "C03": dict(
    text="The traced program, the kernel's ptrace rules and the tracer as one system in Coq (Tracer/Enforce.v): any number of tasks, arbitrary "
         "event streams (traced syscalls, fork / vfork / clone, exits, the tracer's waits in any order), an arbitrary decision function into "
